@@ -10,6 +10,9 @@ import (
 )
 
 func genC27(r *simkit.Rand, tier string) *simkit.Plan {
+	if r.Chance(0.25) {
+		return genC27Sharded(r)
+	}
 	p := &simkit.Plan{Arm: "faultfree", Knobs: map[string]int64{}}
 	// everything CacheConfig.Verify accepts, biased to small numbers so that limits bind
 	chunks := []int{1, 1, 2, 3, 4, 5, 8, 16, 16, 32, 64, 128}[r.Intn(12)]
@@ -103,6 +106,9 @@ func sortedKeys(m map[string]bool) []string {
 }
 
 func execC27(c *simkit.Ctx) bool {
+	if c.Plan.Arm == "sharded" {
+		return execC27Sharded(c)
+	}
 	p := c.Plan
 	cfg := immunitycache.CacheConfig{Name: "sim", NumChunks: uint32(p.Knob("chunks", 1)), MaxNumItems: uint32(p.Knob("items", 4)),
 		MaxNumBytes: uint32(p.Knob("bytes", 4)), NumItemsToPreemptivelyEvict: uint32(p.Knob("evict", 1))}
